@@ -97,7 +97,7 @@ def main(v: Verdict) -> None:
     # type variables with convertible names: of the class, of the constructor only, of a method
     files["mgeneric.py"] = ("from typing import Generic, TypeVar\n\nT_in = TypeVar(\"T_in\")\nU_out = TypeVar(\"U_out\", covariant=True)\nv_x = TypeVar(\"v_x\")\n\n\n"
                             "class Box(Generic[T_in, U_out]):\n    def __init__(self, item: T_in):\n        self.item = item\n\n    def get(self) -> T_in:\n        ...\n\n"
-                            "    def conv(self, f: v_x) -> U_out:\n        ...\n\n\nclass CtorOnly:\n    def __init__(self, x: v_x):\n        self.x = x\n\n\ndef free_fn(a: T_in) -> T_in:\n    ...\n")
+                            "    def conv(self, f: v_x) -> U_out:\n        ...\n\n    def put(self, other: T_in) -> T_in:\n        ...\n\n    def tag(self, key: v_x, value: T_in) -> int:\n        ...\n\n\nclass CtorOnly:\n    def __init__(self, x: v_x):\n        self.x = x\n\n\ndef free_fn(a: T_in) -> T_in:\n    ...\n")
     # packages that receive re-exported declarations: one whose path changes under conversion, handled before one whose path does not
     files["core/__init__.py"] = ""
     files["core/_shared.py"] = "def re_fn() -> int:\n    ...\n\n\nclass ReCls:\n    pass\n\n\nclass ReOther:\n    pass\n"
